@@ -1584,26 +1584,53 @@ impl<'arena> PrettyFormatter<'arena> {
 
     fn term_constructor_argument(&self, body: TermId) -> RcDoc<'arena> {
         match &self.arena.terms[&body] {
-            | Term::Paren(Paren(terms)) => self.with_leading_comments(
-                body.into(),
-                self.delimited(
-                    Some(body.into()),
-                    "(",
-                    terms.iter().map(|term| self.annotated_term_fragment(*term)).collect(),
-                    ",",
-                    ")",
-                ),
-            ),
+            | Term::Paren(Paren(terms)) => {
+                self.after_constructor_name(body.into()).append(self.with_leading_comments(
+                    body.into(),
+                    self.delimited(
+                        Some(body.into()),
+                        "(",
+                        terms.iter().map(|term| self.annotated_term_fragment(*term)).collect(),
+                        ",",
+                        ")",
+                    ),
+                ))
+            }
             | _ => self.delimited(None, "(", vec![self.annotated_term_fragment(body)], ",", ")"),
+        }
+    }
+
+    /// A comment in front of a constructor argument must not touch the name: `-` is an
+    /// identifier character, so `+Cons-- c` would swallow the comment.
+    fn after_constructor_name(&self, argument: EntityId) -> RcDoc<'arena> {
+        if self.arena.trivia.leading_comments(argument).is_empty() {
+            RcDoc::nil()
+        } else {
+            RcDoc::text(" ")
         }
     }
 
     fn pattern_constructor_argument(&self, body: PatId) -> RcDoc<'arena> {
         match &self.arena.pats[&body] {
+            | Pattern::Alias(_) | Pattern::Manifest(_) => {
+                self.after_constructor_name(body.into()).append(self.annotated_pattern(body))
+            }
+            | Pattern::Paren(_) => self
+                .after_constructor_name(body.into())
+                .append(self.pattern_constructor_argument_group(body)),
+            | _ => self.pattern_constructor_argument_group(body),
+        }
+    }
+
+    fn pattern_constructor_argument_group(&self, body: PatId) -> RcDoc<'arena> {
+        match &self.arena.pats[&body] {
             | Pattern::Alias(_) | Pattern::Manifest(_) => self.annotated_pattern(body),
             | Pattern::Paren(Paren(patterns)) => match patterns.as_slice() {
                 | [inner] if self.should_elide_parentheses(body.into(), (*inner).into()) => self
-                    .with_leading_comments(body.into(), self.pattern_constructor_argument(*inner)),
+                    .with_leading_comments(
+                        body.into(),
+                        self.pattern_constructor_argument_group(*inner),
+                    ),
                 | _ => self.with_leading_comments(
                     body.into(),
                     self.delimited(
